@@ -113,6 +113,15 @@ def gen_case(rng):
         eqs.append("  for i in 1:%d loop\n%s  end for;" % (n, "".join("    z2[i, %d] = x[i] + %d;\n" % (j + 1, j) for j in range(m2))))
         tags.add("attr:symbolic-matrix-of-array-parameter")
     if rng.random() < 0.3:
+        # a two-index variable whose last dimension has size 1, with symbolic array attributes
+        L1v = lit_array(rng, [n, 1], 1, 9)
+        add("L1", [n, 1], "parameters", prefixes="parameter", value=L1v)
+        L1a = np.array(L1v)
+        decls.append("  Real z3[%d, 1](max = L1, min = -2 * L1);" % n)
+        arrays["z3"] = {"dims": [[n, 1]], "attrs": {"max": L1a.tolist(), "min": (-2 * L1a).tolist()}, "list": "alg_states"}
+        eqs.append("  for i in 1:%d loop\n    z3[i, 1] = x[i] + 5;\n  end for;" % n)
+        tags.add("attr:symbolic-column-matrix-of-array-parameter")
+    if rng.random() < 0.3:
         if "pd" not in "".join(decls):
             decls.append("  parameter Real pd = 1.5;")
         add("dl", [n], "alg_states")
